@@ -107,6 +107,8 @@ thread_local! {
     static LAST_PANIC: RefCell<Option<String>> = const { RefCell::new(None) };
     /// atoms interned as noise stay alive for the life of the worker thread
     pub static NOISE_ATOMS: RefCell<Vec<swc_core::ecma::atoms::Atom>> = const { RefCell::new(Vec::new()) };
+    /// heap blocks allocated as noise stay alive for the life of the worker thread
+    pub static NOISE_HEAP: RefCell<Vec<Vec<u8>>> = const { RefCell::new(Vec::new()) };
 }
 
 pub fn set_phase(p: Phase) {
